@@ -2079,3 +2079,28 @@ def rule_symlinked_subdirs(rep: Report, repo: Repo, rule: str) -> None:
               f"the directory list: the parent's toctree names '<link>/index.rst', which is never written because the walk does not "
               f"enter the link", witness="cminx -r -o out dir   where dir/linked -> ../other holds a .cmake file (follow_symlinks: false, the default)",
               key=f"{rule}|symlinked-subdirs")
+
+
+def rule_index_name_collision(rep: Report, repo: Repo, rule: str) -> None:
+    """The page of <dir>/<stem>.cmake and the index of <dir> are both written below <output>/<dir>/: '<stem>.rst' and
+    'index.rst'.  Unless something keeps the stem 'index' apart (a test of the file name against 'index', another index name),
+    a module called index.cmake and its directory's index are one file: one of the two is lost."""
+    rep.rule(rule, "the page name '<stem>.rst' of a processed file cannot coincide with the 'index.rst' of its directory")
+    dm = DocumentModel(repo)
+    consts = []
+    for fn in (dm.fn, dm.single):
+        for n in ast.walk(fn):
+            if isinstance(n, ast.Compare):
+                for x in [n.left] + list(n.comparators):
+                    for c in ast.walk(x):
+                        if isinstance(c, ast.Constant) and isinstance(c.value, str) and c.value.lower().startswith("index") \
+                                and c.value not in ("index.rst",):
+                            consts.append(norm(n)[:60])
+    index_names = {c.value for n in ast.walk(dm.fn) for c in ast.walk(n) if isinstance(c, ast.Constant) and isinstance(c.value, str)
+                   and c.value.endswith("index.rst")}
+    separate = bool(consts) or not any(v.split("/")[-1] == "index.rst" for v in index_names)
+    rep.check(separate, rule, f"{MOD}:document", f"index file names {sorted(index_names)}; tests that keep a stem 'index' apart: {consts or 'none'}",
+              "a module called index.cmake is rendered to <dir>/index.rst, the very file that holds the directory's toctree: whichever "
+              "is written last wins (today the page), so the directory has either no toctree or one page fewer than files",
+              witness="cminx -o out dir   with dir/index.cmake and dir/b.cmake: out/index.rst is the page of index.cmake, no toctree",
+              key=f"{rule}|index-name-collision")
